@@ -242,6 +242,63 @@ func c15Driver(minK, maxK int, parensUpTo int, rotUpTo int) func(c *explore.Choo
 	}
 }
 
+// c15LongDriver: shapes beyond the completely enumerated sizes.  (a) function types with 3..maxArgs
+// arguments, plain or with one argument replaced by a slice, a pair or a (parenthesised) function;
+// (b) towers: every sequence of `depth` unary contexts (slice of, left / right component of a pair,
+// argument / result of a function, ext.Box of, G of) around a leaf.
+func c15LongDriver(maxArgs, depth int) func(c *explore.Chooser) *c15Case {
+	return func(c *explore.Chooser) *c15Case {
+		pos := c.Choose(5)
+		g := &c15Gen{c: c, allowT: pos == 1 || pos == 2, rot: pos * 3}
+		var t *ty
+		cons := 0
+		if c.Choose(2) == 0 {
+			n := 3 + c.Choose(maxArgs-2)
+			kids := make([]*ty, n+1)
+			for i := range kids {
+				kids[i] = g.leaf()
+			}
+			v := c.Choose(1 + 3*n)
+			if v > 0 {
+				i, form := (v-1)/3, (v-1)%3
+				switch form {
+				case 0:
+					kids[i] = &ty{kind: tySlice, kids: []*ty{kids[i]}}
+				case 1:
+					kids[i] = &ty{kind: tyTuple, kids: []*ty{kids[i], g.leaf()}}
+				case 2:
+					kids[i] = &ty{kind: tyArrow, kids: []*ty{kids[i], g.leaf()}}
+				}
+				cons++
+			}
+			t = &ty{kind: tyArrow, kids: kids}
+			cons++
+		} else {
+			t = g.leaf()
+			for d := 0; d < depth; d++ {
+				switch c.Choose(7) {
+				case 0:
+					t = &ty{kind: tySlice, kids: []*ty{t}}
+				case 1:
+					t = &ty{kind: tyTuple, kids: []*ty{t, g.leaf()}}
+				case 2:
+					t = &ty{kind: tyTuple, kids: []*ty{g.leaf(), t}}
+				case 3:
+					t = &ty{kind: tyArrow, kids: []*ty{t, g.leaf()}}
+				case 4:
+					t = &ty{kind: tyArrow, kids: []*ty{g.leaf(), t}}
+				case 5:
+					t = &ty{kind: tyGen, name: "ext.Box", kids: []*ty{t}}
+				case 6:
+					t = &ty{kind: tyGen, name: "G", kids: []*ty{t}}
+				}
+			}
+			cons = depth
+		}
+		return &c15Case{t: t, pos: pos, fo: t.folang(), want: c15Canon(t.goType()), cons: cons}
+	}
+}
+
 func c15Canon(goType string) string {
 	e, err := parser.ParseExpr(goType)
 	if err != nil {
@@ -380,9 +437,11 @@ func checkC15(c *core.Ctx) {
 		collect(c15Driver(0, 3, 3, 2))
 		// k = 4 with minimal parenthesisation only
 		collect(c15Driver(4, 4, 0, 0))
+		collect(c15LongDriver(12, 5))
 	} else {
 		collect(c15Driver(0, 2, 2, 2))
 		collect(c15Driver(3, 3, 0, 0))
+		collect(c15LongDriver(8, 4))
 	}
 	c.Count(0, st.States, st.Transitions, 0)
 	c.Set("explorer", map[string]any{"executions": st.Executions, "max_depth": st.MaxDepth})
